@@ -27,9 +27,9 @@ Qed.
 
 Section Multi.
 Variable decode : list N -> option msg.
-Variable method_kind : list N -> N.
-Variable req_ok : list N -> bool.
-Variable service : list N -> list N -> option sres.
+Variable method_kind : N -> list N -> N.
+Variable req_ok : N -> list N -> bool.
+Variable service : N -> list N -> list N -> option sres.
 Notation step := (step decode method_kind req_ok service).
 Notation run := (run decode method_kind req_ok service).
 Notation mstep := (mstep decode method_kind req_ok service).
